@@ -474,7 +474,9 @@ func TestVerif_C25_Service(t *testing.T) {
 		var trace []string
 		tenure := 0
 		multi, faults := false, false
-		flapOutageMark := -1 // number of expected changes recorded before the last flap that happened while the endpoint was failing
+		// log indexes whose batch was at the head of the queue (oldest index with
+		// nothing delivered yet) when a flap happened while the endpoint was failing
+		flapHeads := map[uint64]bool{}
 		doReq := func(stmts []string, tx bool) bool {
 			idx, err := exec(stmts, tx)
 			if err != nil {
@@ -504,8 +506,17 @@ func TestVerif_C25_Service(t *testing.T) {
 			failing := ep.down || ep.failNext > 0
 			ep.mu.Unlock()
 			if failing {
-				flapOutageMark = len(expected)
 				rec.Label("flap-during-outage")
+				seen := map[uint64]bool{}
+				for _, d := range ep.snapshot() {
+					seen[d.Msg.Index] = true
+				}
+				for _, c := range expected { // in index order
+					if !seen[c.Index] {
+						flapHeads[c.Index] = true
+						break
+					}
+				}
 			}
 			ep.setTenure(-1)
 			n.svc.SetLeader(false)
@@ -590,7 +601,7 @@ func TestVerif_C25_Service(t *testing.T) {
 		ep.mu.Unlock()
 		trace = append(trace, "sentinel")
 		nBefore := len(expected)
-		if !doReq([]string{"INSERT INTO t1(v) VALUES('sentinel')"}, false) {
+		if !doReq([]string{"INSERT INTO t1(id, v) VALUES(1000000, 'sentinel')"}, false) {
 			rt.Skip("sentinel failed")
 		}
 		if len(expected) != nBefore+1 {
@@ -615,7 +626,8 @@ func TestVerif_C25_Service(t *testing.T) {
 		}
 		deadline := time.Now().Add(40 * time.Second)
 		for {
-			if ok, _ := has(ep.snapshot(), sentinel, false); ok {
+			// (rowid 1000000 is used by nothing else, so any index identifies it)
+			if ok, _ := has(ep.snapshot(), sentinel, true); ok {
 				break
 			}
 			if time.Now().After(deadline) {
@@ -646,7 +658,7 @@ func TestVerif_C25_Service(t *testing.T) {
 		}
 
 		// at least once, with its index
-		for i, c := range expected {
+		for _, c := range expected {
 			if ok, _ := has(ds, c, false); ok {
 				continue
 			}
@@ -659,9 +671,9 @@ func TestVerif_C25_Service(t *testing.T) {
 				}
 			}
 			switch {
-			case !indexSeen && i < flapOutageMark && !(found && at == 0 && later):
+			case !indexSeen && flapHeads[c.Index] && !(found && at == 0 && later):
 				fail("C25/unsent-batch-skipped-after-leader-flap", "a batch being retried when the service loses and regains leadership is never sent",
-					"change %s (statement %d of %d, tx=%v): nothing with index %d was ever delivered; the request preceded a leadership flap that happened while the endpoint was failing", c.key(), c.Stmt+1, c.NStmt, c.Tx, c.Index)
+					"change %s (statement %d of %d, tx=%v): nothing with index %d was ever delivered; its batch was at the head of the queue when the service lost and regained leadership while the endpoint was failing", c.key(), c.Stmt+1, c.NStmt, c.Tx, c.Index)
 			case found && at == 0 && later:
 				fail("C25/later-statement-labelled-index-0", "events of the 2nd+ statement of a non-transactional request are delivered with index 0",
 					"change %s (statement %d of %d, tx=%v) was delivered labelled index %d instead of %d", c.key(), c.Stmt+1, c.NStmt, c.Tx, at, c.Index)
